@@ -61,6 +61,12 @@ def run(tier):
             raise lib.MachineryError("bound cases with an 8-stem conflict group could not be built")
         rec += lib.pmap(_rec8, b8)
         cases = cases + b8
+        # through the 3D -> 2D mapping of corpus structures (Mapping2D3D.all_dot_brackets, then the BpSeq's own list)
+        mfiles = ss.MAPPING_FILES_QUICK if tier == "quick" else ss.MAPPING_FILES_THOROUGH
+        mrec = [c for cs in lib.pmap(ss.record_mapping_all, list(mfiles), chunksize=1) for c in cs]
+        mrec = [c for c in mrec if ss.max_component(c["pairs"])[0] <= 8]
+        rec += mrec
+        cases = cases + mrec
         domain_check([c for c in rec if c["id"].startswith("m")], t["maxn"], sc)
         called = [c for c in rec if c["all_called"]]
         skipped = len(rec) - len(called)
@@ -75,7 +81,8 @@ def run(tier):
                        f"because a conflict component exceeds {t['all_limit']} stems or the permutation product exceeds "
                        f"{t['perm_limit']} (the enumeration is factorial; the statement bounds groups at 8 stems). "
                        "TLC enumerates StableSet(C) over [C -> 0..maxdeg(C)] for every component and compares counts/"
-                       "membership. Non-trivial = distinct structure with at least one pair of crossing stems.")
+                       "membership. Plus, for " + str(len(mfiles)) + " corpus structures, the list as rendered by Mapping2D3D."
+                       "all_dot_brackets and the BpSeq's own list asked afterwards. Non-trivial = distinct structure with at least one pair of crossing stems.")
         cov["distinct_nontrivial"] = len({(c["n"], tuple(map(tuple, c["pairs"]))) for c in called if crossing(c["pairs"])})
         cov["max_list_length"] = max(len(c["all"]["list"]) for c in called)
         cov["max_component_stems"] = max(ss.max_component(c["pairs"])[0] for c in called)
@@ -94,7 +101,11 @@ def replay(doc):
     _LIM.update(all_limit=8, perm_limit=50000)
     rep = lib.Report(PID, "quick", "model_checking", evidence=False)
     with lib.Scratch("c16r") as sc:
-        rec = _rec({k: case[k] for k in ("id", "kind", "n", "pairs", "seq")})
+        if str(case["id"]).startswith("xmap-"):
+            name = case["id"][len("xmap-"):].rsplit("-", 1)[0]
+            rec = [c for c in ss.record_mapping_all(name) if c["id"] == case["id"]][0]
+        else:
+            rec = _rec({k: case[k] for k in ("id", "kind", "n", "pairs", "seq")})
         res = lib.trace_validate("Trace_SecStruct", "Trace_SecStruct_C16.cfg", [rec], sc, chunks=1)
         rep.add_trace(res, {rec["id"]: rec}, "C16")
     return rep.finish()
